@@ -131,11 +131,22 @@ def sync_coq():
     return vfiles
 
 
+def gen_api():
+    os.makedirs(os.path.join(VERIF, 'harness/src'), exist_ok=True)
+    rc, out = run([sys.executable, os.path.join(VERIF, 'tools/gen_api.py'), os.path.join(COQ, 'gen/meta.json'),
+                   os.path.join(COQ, 'gen/GenTypes.v'), os.path.join(COQ, 'gen/GenApi.v'),
+                   os.path.join(VERIF, 'harness/src/dispatch_gen.rs'), os.path.join(BUILD, 'api.json')], timeout=60)
+    if rc != 0:
+        raise TieBroken('api catalogue: ' + (out.strip().splitlines() or ['?'])[-1], out)
+    return out.strip()
+
+
 def gen():
     t = translate()
     s = render_spec()
+    a = gen_api()
     sync_coq()
-    return t, s
+    return t, s + '\n' + a
 
 
 def make(targets, timeout=3000):
